@@ -344,6 +344,7 @@ package car
 //@   ensures never_impossible [C15]: tc.opts.DataPadding < 4611686018427387904 && e0 != ErrOffsetImpossible && e1 != ErrOffsetImpossible && e2 != ErrOffsetImpossible ==> err != ErrOffsetImpossible
 
 //@ func (*traversalCar).WriteV1
+//@   ensures a_failed_traversal_still_reports_what_was_written [C15]: whe == nil && hse == nil && terr != nil ==> err == terr && result0 == sz
 //@   modifies wn(w), tc.size
 //@   let widx, werr := call[IndexTracker.Index#0]
 //@   ensures first_pass_learns_the_size [C15]: whe == nil && hse == nil && terr == nil && old(tc.size) == 0 ==> (err != ErrSizeMismatch || err == werr) && tc.size == sz
